@@ -25,6 +25,9 @@ import VerylModel.Driver.Aig
 import VerylModel.Driver.Netlist
 import VerylModel.Driver.Swap
 import VerylModel.Driver.Reloc
+import VerylModel.Driver.SV
+import VerylModel.Driver.Emit
+import VerylModel.Driver.Translate
 
 def main (args : List String) : IO UInt32 := do
   match args with
@@ -63,4 +66,7 @@ def main (args : List String) : IO UInt32 := do
   | ["netlist"] => VerylModel.Driver.Netlist.run; return 0
   | ["swap"] => VerylModel.Driver.Swap.run; return 0
   | ["reuse"] => VerylModel.Driver.Reloc.run; return 0
+  | ["sv"] => VerylModel.Driver.SVRun.run; return 0
+  | ["emit"] => VerylModel.Driver.EmitD.run; return 0
+  | ["translate"] => VerylModel.Driver.TranslateD.run; return 0
   | _ => IO.eprintln s!"vmodel: unknown domain {args}"; return 2
